@@ -497,7 +497,7 @@ def r12(ctx, facts):
     """a PARTIAL fetch (client routes, peer list) is merged INTO what is pending; only full metadata subsumes - and may replace -
     a pending partial update. A partial merge that overwrites `metadata_changes` while something is pending throws away the
     other aspect's pending result (seed C19-j: a peer list erasing the pending client-routes update)."""
-    r = ctx.rule("R12", "a partial merge replaces `metadata_changes` as a whole only when nothing is pending", floor=2)
+    r = ctx.rule("R12", "a partial merge replaces `metadata_changes` as a whole only when nothing is pending", floor=1)
     n = 0
     for nm in ("merge_client_routes_update", "merge_topology_update"):
         b = facts.one(r"^scylla::cluster::metadata::update::MetadataUpdate::%s$" % nm)
@@ -519,7 +519,17 @@ def r12(ctx, facts):
                        "whatever another partial fetch (or a full one) had left there is dropped and never observed by the consumer" % nm,
                        b.stmt_span(st))
     if n == 0:
-        raise AnchorLost("no store to `metadata_changes` in the partial merge functions")
+        # no whole-field store at all (e.g. `get_or_insert_with(|| Partial(default()))`, which keeps what is pending): then nothing
+        # may be written through a `&mut MetadataChanges` / `&mut Option<MetadataChanges>` as a whole either
+        bad = []
+        for nm in ("merge_client_routes_update", "merge_topology_update"):
+            b = facts.one(r"^scylla::cluster::metadata::update::MetadataUpdate::%s$" % nm)
+            for bb in sorted(b.live_blocks):
+                for st in b.stmts(bb):
+                    if st[0] == "A" and st[1][1] == ["*"] and b.local_ty(st[1][0]).replace("&mut ", "").replace("core::option::Option<", "").rstrip(">").endswith("update::MetadataChanges"):
+                        bad.append((nm, b.stmt_span(st)))
+        r.instance("no-overwrite-of-the-pending-update", not bad,
+                   "%s assigns through a `&mut` to the whole pending update: whatever was pending is dropped" % (bad[0][0] if bad else ""), bad[0][1] if bad else None)
 
 
 def check(ctx):
